@@ -41,19 +41,26 @@ elab "msplit1" : tactic => withMainContext do
   let some (d, isIf) ← innermost tgt | throwError "msplit1: nothing to split"
   let dstx ← Term.exprToSyntax d
   if isIf then
-    evalTactic (← `(tactic| by_cases hsplit : $dstx <;> simp only [hsplit, ↓reduceIte, if_true, if_false, not_true_eq_false, not_false_eq_true]))
+    evalTactic (← `(tactic| by_cases hsplit : $dstx <;> first
+      | (simp only [if_pos hsplit, dif_pos hsplit]; try simp only [])
+      | (simp only [if_neg hsplit, dif_neg hsplit]; try simp only [])))
+  else if d.isFVar then
+    evalTactic (← `(tactic| (cases $dstx:term <;> try simp only [])))
   else
-    evalTactic (← `(tactic| (generalize hsplit : $dstx = xsplit at *; cases xsplit <;> simp only [])))
+    evalTactic (← `(tactic| (generalize hsplit : $dstx = xsplit at *; cases xsplit <;> try simp only [])))
 
 end SF.GenEq
 
+theorem head?_match {α : Type} (l : List α) : l.head? = (match l with | [] => none | x :: _ => some x) := by
+  cases l <;> rfl
+
 /-- unfold the `Except` plumbing -/
 macro "munfold" : tactic => `(tactic| simp only [bind, Except.bind, Except.map, pure, Except.pure, throw, throwThe,
-  MonadExceptOf.throw, Functor.map, SF.popFront, SF.unwrap, SF.front, SF.back, SF.getIdx, SF.usub, SF.assertFinite] at *)
+  MonadExceptOf.throw, Functor.map, SF.popFront, SF.unwrap, SF.front, SF.back, SF.getIdx, SF.usub, SF.assertFinite, head?_match] at *)
 
 macro "splitall" : tactic => `(tactic| repeat (any_goals msplit1))
 
-macro "gen_fin" : tactic => `(tactic| first | rfl | (with_unfolding_all rfl) | (intro h; injection h with h; subst h; rfl) | (intro h; nomatch h) | (simp_all; done) | (simp_all [List.head?_eq_getElem?]; done) | (intros; simp_all; done))
+macro "gen_fin" : tactic => `(tactic| first | rfl | (with_unfolding_all rfl) | (intro h; cases h; first | done | rfl | (simp; done)) | (simp_all; done) | (simp_all [List.head?_eq_getElem?]; done) | (intros; simp_all; done))
 
 /-- close a tie obligation: unfold the plumbing, split every innermost scrutinee, finish by simplification -/
 macro "gen_tie" : tactic => `(tactic| ((try munfold); (try splitall); all_goals gen_fin))
